@@ -75,10 +75,10 @@ def classify(v):
         import ast
         try:
             cid = ast.literal_eval(v["case_id"])
-            kinds, negs = cid[2], cid[3]
-            if any(negs[i] and kinds[i] in ("end", "return") and i + 1 < len(kinds) and kinds[i + 1] == "jump_after"
-                   for i in range(len(kinds))):
-                return "C02-negated-leaving-elseif-before-jump-only-elseif"
+            kinds, negs, else_kind = cid[2], cid[3], cid[4]
+            parts = list(kinds) + [else_kind]
+            if any(negs[i] and kinds[i] in ("end", "return") and "jump_after" in parts[i + 1:] for i in range(len(kinds))):
+                return "C02-negated-leaving-elseif-before-jump-only-part"
         except Exception:
             pass
     return None
